@@ -150,7 +150,21 @@ def model_logprob(ctx, name, model, shape, rs, rep, unit_interval):
         sign, logabs = np.linalg.slogdet(J)
         with torch.no_grad():
             z = whole(xb)
-        base = float(torch.distributions.Normal(0.0, 1.0).log_prob(z).sum())
+        if isinstance(getattr(model, 'in_base', None), torch.nn.Module):
+            # the base is a module: its density, evaluated on its own in evaluation mode, on the single point z
+            import copy as _copy
+            ref_base = _copy.deepcopy(model.in_base)
+            ref_base.eval()
+            with torch.no_grad():
+                base = float(ref_base.log_prob(z).reshape(-1)[0])
+                lp_alone = float(model(xb).reshape(-1)[0])
+            ctx.count('module-base-models')
+            if abs(lp_alone - float(lp[0])) > 1e-6 * (1 + abs(lp_alone)):
+                ctx.violation('c15-logprob-batch-dependent:' + name, f'{name} in evaluation mode: log_prob of a point is {float(lp[0])!r} inside a batch of {len(x)} and {lp_alone!r} alone',
+                              replay=rep)
+                return False
+        else:
+            base = float(torch.distributions.Normal(0.0, 1.0).log_prob(z).sum())
         ctx.count('log_prob_checks')
         if abs((base + logabs) - float(lp[0])) > 1e-6 * (1 + abs(float(lp[0]))):
             ctx.violation('c15-logprob:' + name, f'{name}: log_prob {float(lp[0])!r} but change of variables gives {base + logabs!r}', replay=rep)
@@ -293,7 +307,15 @@ def run(ctx):
         rs = np.random.RandomState(np_seed(ctx.sub_rng('model', k)))
         kind = k % 3
         logit = float(rs.choice([0.01, 0.05, 0.2])) if rs.rand() < 0.4 else None
-        if kind == 0:
+        if k % 6 == 5:
+            # a flow whose base distribution is itself a flow with batch normalisation (a torch Module with train / eval modes)
+            n = int(rs.randint(2, 6))
+            cfg = dict(model='RealNVP1d-over-MAF', in_features=n, logit=None, n_flows=int(rs.randint(1, 3)), units=int(rs.randint(2, 9)), seed=int(rs.randint(10000)))
+            inner = MAF(n, n_flows=1, depth=1, units=cfg['units'], batch_norm=True, activation='tanh', sequential=True, random_state=np.random.RandomState(cfg['seed']))
+            model = RealNVP1d(n, in_base=inner, n_flows=cfg['n_flows'], depth=1, units=cfg['units'], batch_norm=False, affine=True)
+            logit = None
+            shape = (n,)
+        elif kind == 0:
             n = int(rs.randint(2, 9))
             cfg = dict(model='MAF', in_features=n, logit=logit, n_flows=int(rs.randint(1, 4)), depth=int(rs.randint(1, 3)), units=int(rs.randint(1, 17)),
                        batch_norm=bool(rs.rand() < 0.6), sequential=bool(rs.rand() < 0.5), seed=int(rs.randint(10000)))
@@ -344,7 +366,10 @@ def run(ctx):
             if 'shape' in str(ex) or 'size' in str(ex):
                 ctx.count('configuration-not-runnable')      # image side not divisible by the model's scales: not an accepted configuration
             else:
-                raise
+                ctx.violation(f'c15-raises:{type(ex).__name__}', f'{cfg["model"]} in evaluation mode raised {type(ex).__name__}: {str(ex)[:200]}', replay=rep)
+        except Exception as ex:
+            ctx.violation(f'c15-raises:{type(ex).__name__}', f'{cfg["model"]} in evaluation mode raised {type(ex).__name__}: {str(ex)[:200]} '
+                                                            f'(log_prob of a single point / of a batch)', replay=rep)
         if ctx.n_new(with_input_only=True) >= 3:
             return
 
